@@ -36,6 +36,8 @@ unsafe fn same_target<const L: usize>() {
     let entry = f & !1;
     let orig: [u8; sim::RLEN] = kani::any();
     sim::register_entry(0, entry as u64, 16, orig);
+    kani::cover!(thumb, "COVER: Thumb target");
+    kani::cover!(!thumb, "COVER: A32 target");
     assert!(!lock_held(), "VERIF[C04]: the process-wide lock is not free while no injector or preventer exists");
     {
         let mut inj = InjectorPP::new();
@@ -76,8 +78,6 @@ unsafe fn same_target<const L: usize>() {
     assert!(sim::all_clean(), "VERIF[C17]: restored bytes are not covered by a later flush");
     assert!(!lock_held(), "VERIF[C04]: the process-wide lock is still held after the injector is dropped");
     assert!(sim::live_jits() == 0, "VERIF[C12]: a mapping created by an installation is still live after the injector is dropped");
-    kani::cover!(thumb, "COVER: Thumb target");
-    kani::cover!(!thumb, "COVER: A32 target");
 }
 
 macro_rules! harness {
